@@ -65,6 +65,17 @@ def emit_with_names(expr, uses_context=False, max_num_blocks=None, precompile=Tr
     return out.source_code(), temps
 
 
+def emit_spilled(expr, uses_context=False):
+    """emit `expr` at a point where the block budget is exhausted, so that the real Expression.compile
+    takes its spill path (helper function + call) for `expr` itself"""
+    out = CodeBuilder()
+    translator._assign_ids([expr])
+    ex.visit(expr, lambda x: x.precompile(out))
+    out._num_blocks = out._max_num_blocks          # as deep as the generator allows
+    expr.compile(out, translator._Flags(uses_context))
+    return out.source_code()
+
+
 def parse(src):
     return ast.parse(src)
 
